@@ -185,6 +185,15 @@ pub enum COp {
     UpdatePal { who: String, limit: u32 },
     /// governance raises / lowers the factory's minimum mint price
     SudoMinPrice { price: u128 },
+    // ---- whitelist administration (sender `who`; the whitelist in `slot`, attached or not) ----
+    WlAdd { who: String, slot: usize, stage: u32, members: Vec<String> },
+    WlRemove { who: String, slot: usize, stage: u32, members: Vec<String> },
+    /// tiered list kinds
+    WlAddStage { who: String, slot: usize, stage: StageSpec },
+    /// tiered list kinds: removes the stage and every stage after it, with their members
+    WlRemoveStage { who: String, slot: usize, stage: u32 },
+    /// tiered kinds: UpdateStageConfig; the others: UpdateStartTime / UpdateEndTime (price ignored)
+    WlUpdateStage { who: String, slot: usize, stage: u32, start: Option<T>, end: Option<T>, price: Option<u128> },
 }
 
 #[derive(Clone, Debug, Serialize, Deserialize)]
@@ -289,6 +298,13 @@ impl WlSpec {
 }
 
 // ---------- the whitelists of a running case ----------
+/// The harness's own ledger of a whitelist: what its schedule, prices and per-stage member
+/// lists are INTENDED to be, from the creation message and from every admin operation that
+/// the whitelist accepted, with the documented semantics (add_members adds to that stage,
+/// remove_members removes from it, add_stage appends a stage with its own list,
+/// remove_stage(i) drops stage i and every later stage together with their members,
+/// update_stage_config changes times / price of that stage only).  Never read back from the
+/// contract.  (Merkle kinds: the trees are fixed at creation; only times / prices can change.)
 struct WlInfo {
     spec: WlSpec,
     addr: Addr,
@@ -731,6 +747,11 @@ fn kind_of(op: &COp) -> &'static str {
         COp::RemoveDiscount { .. } => "remove_discount_price",
         COp::UpdatePal { .. } => "update_per_address_limit",
         COp::SudoMinPrice { .. } => "sudo_min_price",
+        COp::WlAdd { .. } => "wl_add_members",
+        COp::WlRemove { .. } => "wl_remove_members",
+        COp::WlAddStage { .. } => "wl_add_stage",
+        COp::WlRemoveStage { .. } => "wl_remove_stage",
+        COp::WlUpdateStage { .. } => "wl_update_stage",
     }
 }
 
@@ -743,6 +764,127 @@ pub struct CaseResult {
     pub instants: BTreeSet<String>,
     /// things worth telling that are not violations of the property text
     pub observations: BTreeMap<String, u64>,
+    /// whitelist admin operations executed
+    pub wl_ops: u64,
+}
+
+/// run one whitelist admin operation on the real whitelist; if (and only if) the whitelist
+/// accepted it, apply its documented meaning to the ledger.  Returns (kind name, accepted).
+fn wl_admin(w: &mut dyn World, wls: &mut Vec<WlInfo>, cop: &COp) -> (&'static str, bool) {
+    let slot = match cop {
+        COp::WlAdd { slot, .. } | COp::WlRemove { slot, .. } | COp::WlAddStage { slot, .. } | COp::WlRemoveStage { slot, .. } | COp::WlUpdateStage { slot, .. } => *slot,
+        _ => return ("none", false),
+    };
+    let Some(i) = wls.get_mut(slot) else { return ("none", false) };
+    let kind = i.spec.kind;
+    let addr = i.addr.clone();
+    let limit = i.spec.limit;
+    let memberv = |ms: &Vec<String>| -> Value {
+        if kind.flex() {
+            json!(ms.iter().map(|m| json!({"address": m, "mint_count": limit})).collect::<Vec<_>>())
+        } else {
+            json!(ms)
+        }
+    };
+    let t0 = w.t0();
+    let abs = |t: T| (t0 as i128 + t.ns()) as u64;
+    let mut accepted = false;
+    match cop {
+        COp::WlAdd { who, stage, members, .. } => {
+            let msg = if kind.tiered() { json!({"add_members": {"to_add": memberv(members), "stage_id": stage}}) } else { json!({"add_members": {"to_add": memberv(members)}}) };
+            if !kind.merkle() && w.exec_other(who, &addr, &msg) {
+                accepted = true;
+                let st = if kind.tiered() { *stage as usize } else { 0 };
+                if let Some(sg) = i.spec.stages.get_mut(st) {
+                    for m in members {
+                        if !sg.members.contains(m) {
+                            sg.members.push(m.clone());
+                        }
+                    }
+                }
+            }
+        }
+        COp::WlRemove { who, stage, members, .. } => {
+            let msg = if kind.tiered() { json!({"remove_members": {"to_remove": members, "stage_id": stage}}) } else { json!({"remove_members": {"to_remove": members}}) };
+            if !kind.merkle() && w.exec_other(who, &addr, &msg) {
+                accepted = true;
+                let st = if kind.tiered() { *stage as usize } else { 0 };
+                if let Some(sg) = i.spec.stages.get_mut(st) {
+                    sg.members.retain(|m| !members.contains(m));
+                }
+                if st == 0 {
+                    for m in members {
+                        i.added.remove(m);
+                    }
+                }
+            }
+        }
+        COp::WlAddStage { who, stage, .. } => {
+            if kind.tiered() && !kind.merkle() {
+                let mut sj = json!({"name": format!("added{}", i.spec.stages.len() + 1), "start_time": ts(abs(stage.start)), "end_time": ts(abs(stage.end)),
+                                    "mint_price": coinv(stage.price, NATIVE), "mint_count_limit": stage.stage_limit});
+                if !kind.flex() {
+                    sj["per_address_limit"] = json!(limit);
+                }
+                let msg = json!({"add_stage": {"stage": sj, "members": memberv(&stage.members)}});
+                if w.exec_other(who, &addr, &msg) {
+                    accepted = true;
+                    let mut sg = stage.clone();
+                    sg.members.sort();
+                    sg.members.dedup();
+                    i.spec.stages.push(sg);
+                }
+            }
+        }
+        COp::WlRemoveStage { who, stage, .. } => {
+            if kind.tiered() && !kind.merkle() && w.exec_other(who, &addr, &json!({"remove_stage": {"stage_id": stage}})) {
+                accepted = true;
+                i.spec.stages.truncate(*stage as usize);
+                if *stage == 0 {
+                    i.added.clear();
+                }
+            }
+        }
+        COp::WlUpdateStage { who, stage, start, end, price, .. } => {
+            if kind.tiered() {
+                let mut m = json!({"stage_id": stage, "name": null, "start_time": start.map(|t| ts(abs(t))), "end_time": end.map(|t| ts(abs(t))),
+                                   "mint_price": price.map(|p| coinv(p, NATIVE)), "mint_count_limit": null});
+                if !kind.flex() {
+                    m["per_address_limit"] = Value::Null;
+                }
+                if (*stage as usize) < i.spec.stages.len() && w.exec_other(who, &addr, &json!({"update_stage_config": m})) {
+                    accepted = true;
+                    let sg = &mut i.spec.stages[*stage as usize];
+                    if let Some(t) = start {
+                        sg.start = *t;
+                    }
+                    if let Some(t) = end {
+                        sg.end = *t;
+                    }
+                    if let Some(p) = price {
+                        sg.price = *p;
+                    }
+                }
+            } else {
+                // two separate messages, each accepted or rejected on its own
+                if let Some(t) = start {
+                    if w.exec_other(who, &addr, &json!({"update_start_time": ts(abs(*t))})) {
+                        accepted = true;
+                        i.spec.stages[0].start = *t;
+                    }
+                }
+                if let Some(t) = end {
+                    if w.exec_other(who, &addr, &json!({"update_end_time": ts(abs(*t))})) {
+                        accepted = true;
+                        i.spec.stages[0].end = *t;
+                    }
+                }
+            }
+        }
+        _ => {}
+    }
+    i.windows = i.spec.stages.iter().map(|s| (abs(s.start), abs(s.end))).collect();
+    (kind.name(), accepted)
 }
 
 pub fn run_case(c: &Case) -> CaseResult {
@@ -754,6 +896,7 @@ pub fn run_case(c: &Case) -> CaseResult {
         hist: BTreeMap::new(),
         instants: BTreeSet::new(),
         observations: BTreeMap::new(),
+        wl_ops: 0,
     };
     let vname = c.fam.name();
     let mut wb = match new_world(c) {
@@ -785,6 +928,8 @@ pub fn run_case(c: &Case) -> CaseResult {
     let mut pub_ok: BTreeMap<String, u64> = BTreeMap::new();
     let mut wl_ok: BTreeMap<(String, String, usize), u64> = BTreeMap::new();
     let mut stage_ok: BTreeMap<(String, usize), u64> = BTreeMap::new();
+    // the factory's minimum mint price (the worlds are created with 50; governance may move it)
+    let mut min_price_now: u128 = 50;
     let wl_label = c.wls.first().map(|s| s.kind.name()).unwrap_or("none");
 
     for (oi, cop) in c.ops.iter().enumerate() {
@@ -796,6 +941,13 @@ pub fn run_case(c: &Case) -> CaseResult {
             }
             COp::SudoMinPrice { price } => {
                 w.sudo_min_price(*price);
+                min_price_now = *price;
+                continue;
+            }
+            COp::WlAdd { .. } | COp::WlRemove { .. } | COp::WlAddStage { .. } | COp::WlRemoveStage { .. } | COp::WlUpdateStage { .. } => {
+                let (k, ok) = wl_admin(w, &mut wls, cop);
+                *res.hist.entry(format!("{}+{}:{}:{}", vname, k, kind_of(cop), if ok { "ok" } else { "err" })).or_insert(0) += 1;
+                res.wl_ops += 1;
                 continue;
             }
             COp::WlAddMember { who } => {
@@ -923,7 +1075,7 @@ pub fn run_case(c: &Case) -> CaseResult {
                 None => continue,
             },
             COp::UpdatePal { who, limit } => (w.update_pal(who, *limit), who.clone(), vec![]),
-            COp::At(_) | COp::WlAddMember { .. } | COp::SudoMinPrice { .. } => continue,
+            _ => continue,
         };
         if !out.is_minter_step {
             continue;
@@ -1021,8 +1173,9 @@ pub fn run_case(c: &Case) -> CaseResult {
                 }
                 if active && member_spec == Some(false) {
                     res.violations.push((
-                        "C04:unentitled-mint-while-whitelist-active".into(),
-                        format!("{}: {:?} succeeded at {} while the whitelist is active; sender is not in the active stage's list / holds no proof bound to it", vname, cop, pre.now),
+                        "C04:non-member-minted-in-whitelist-phase".into(),
+                        format!("{}: {:?} succeeded at {} while the whitelist is active; by the ledger of admin operations the sender is not an intended member of the active stage {:?} (intended members: {:?}) / holds no proof bound to it",
+                            vname, cop, pre.now, stage_idx.map(|x| x + 1), cur.and_then(|ci| stage_idx.and_then(|s| wls[ci].spec.stages.get(s).map(|g| g.members.clone())))),
                         oi,
                     ));
                 }
@@ -1039,6 +1192,16 @@ pub fn run_case(c: &Case) -> CaseResult {
                             ));
                         }
                         if let (Some(ci), Some(s)) = (cur, stage_idx) {
+                            // charged against the ledger's price of the active stage, whatever the whitelist reports
+                            let lp = wls[ci].spec.stages[s].price;
+                            let ledger_ok = if who == CREATOR { exact(&(lp, d.clone())) } else { delta(&who, d) == lp as i128 };
+                            if !ledger_ok {
+                                res.violations.push((
+                                    "C04:whitelist-mint-not-charged-active-stage-price".into(),
+                                    format!("{}: {:?} at {} in stage {} whose intended price is {} cost the buyer {} {}", vname, cop, pre.now, s + 1, lp, delta(&who, d), d),
+                                    oi,
+                                ));
+                            }
                             if wls[ci].spec.stages[s].price != *p {
                                 res.violations.push((
                                     "C04:whitelist-price-vs-stage".into(),
@@ -1163,7 +1326,9 @@ pub fn run_case(c: &Case) -> CaseResult {
                 if post_wl.as_deref() != Some(newi.addr.as_str()) || post_start != pre.start || post_end != pre.end {
                     res.violations.push(("C04:set-whitelist-wrong-result".into(), format!("{}: SetWhitelist({}) left whitelist {:?} start {} end {:?}", vname, newi.addr, post_wl, post_start, post_end), oi));
                 }
-            } else if who == CREATOR && pre.now < pre.start && !active && !new_active_spec && (pre.wl.is_none() || pre.active_cfg == Some(false)) {
+            } else if who == CREATOR && pre.now < pre.start && !active && !new_active_spec && (pre.wl.is_none() || pre.active_cfg == Some(false))
+                && !newi.spec.stages.is_empty() && newi.spec.stages.iter().all(|g| g.price >= min_price_now)
+            {
                 res.violations.push(("C04:safe-whitelist-change-rejected".into(), format!("{}: SetWhitelist({} {}) by the admin failed at {} < start {} with neither whitelist active: {:?}", vname, newi.spec.kind.name(), newi.addr, pre.now, pre.start, out.err), oi));
             }
         }
@@ -1454,6 +1619,9 @@ fn set_whitelist_cases(fam: Fam, kind: Kind) -> Vec<Case> {
         let mut o = vec![];
         let merkle = fam.merkle() && kind.merkle();
         for (who, p) in [(M1, 60u128), (M2, 70), (M2, 75), (M2, 80), (NM, PUB)] {
+            if p == 75 && !kind.tiered() {
+                continue; // the price of the new whitelist's second stage
+            }
             if merkle && who != NM {
                 // the proof that belongs to the whitelist the price belongs to
                 let slot = match p {
@@ -1636,6 +1804,176 @@ fn overlap_cases(fam: Fam, kind: Kind) -> Vec<Case> {
     v
 }
 
+/// whitelist administration after the whitelist was attached (or before it replaces another
+/// one): stage removal and re-creation, member removal / addition, schedule and price updates,
+/// by the admin and by a stranger; current, former and never members then offer the current
+/// and the former price at the (new) edges.  `full` = every history (thorough tier / rotating
+/// pairing), otherwise the three that matter most.
+fn wl_admin_cases(fam: Fam, kind: Kind, full: bool) -> Vec<Case> {
+    let st = |s: T, e: T, p: u128, m: &[&str]| StageSpec { start: s, end: e, price: p, members: m.iter().map(|x| x.to_string()).collect(), stage_limit: None };
+    let names = |m: &[&str]| -> Vec<String> { m.iter().map(|x| x.to_string()).collect() };
+    let everyone = [M1, M2, NM, STRANGER];
+    // every buyer offers every given price; Merkle kinds: with the proof of their own leaf in `tree`
+    let round = |tree: usize, prices: &[u128]| -> Vec<COp> {
+        let mut o = vec![];
+        for who in everyone {
+            for p in prices {
+                o.push(if fam.merkle() && kind.merkle() { mintp(who, *p, tree, Some(who)) } else { mint(who, *p) });
+            }
+        }
+        o
+    };
+    let at_round = |t: T, tree: usize, prices: &[u128]| -> Vec<COp> {
+        let mut o = vec![at(t)];
+        o.extend(round(tree, prices));
+        o
+    };
+    let mut v = vec![];
+    let mut add = |name: &str, wls: Vec<WlSpec>, ops: Vec<Vec<COp>>| {
+        let mut c = base_case(format!("wl-admin:{}:{}:{}", fam.name(), kind.name(), name), fam, wls, ops.into_iter().flatten().collect());
+        c.num_tokens = 40;
+        v.push(c);
+    };
+    let mk = |stages: Vec<StageSpec>| WlSpec { kind, stages, limit: 9, leaf_fmt: 0 };
+    if kind.tiered() && !kind.merkle() {
+        let w3 = mk(vec![st(T(1000, 0), T(1500, 0), 60, &[M1]), st(T(1600, 0), T(2000, 0), 70, &[M2]), st(T(2100, 0), T(2600, 0), 80, &[NM])]);
+        let rm = |who: &str, slot: usize, stage: u32| COp::WlRemoveStage { who: who.into(), slot, stage };
+        let ads = |who: &str, slot: usize, sg: StageSpec| COp::WlAddStage { who: who.into(), slot, stage: sg };
+        // remove the middle stage (and with it the last one), rebuild both with other members and prices
+        add("rebuild-after-remove-middle", vec![w3.clone()], vec![
+            vec![attach(CREATOR, 0), at(T(500, 0)), rm(STRANGER, 0, 1), rm(CREATOR, 0, 1),
+                 ads(STRANGER, 0, st(T(1600, 0), T(2000, 0), 71, &[M2])),
+                 ads(CREATOR, 0, st(T(1600, 0), T(2000, 0), 71, &[M2])),
+                 ads(CREATOR, 0, st(T(1900, 0), T(2600, 0), 81, &[STRANGER])), // overlaps: rejected
+                 ads(CREATOR, 0, st(T(2100, 0), T(2600, 0), 81, &[STRANGER]))],
+            at_round(T(1000, 0), 0, &[60]), at_round(T(1600, 0), 1, &[71, 70]),
+            at_round(T(2100, -1), 2, &[81]), at_round(T(2100, 0), 2, &[81, 80]), at_round(T(2600, 0), 2, &[81]), at_round(T(2600, 1), 2, &[81]),
+        ]);
+        // members of a stage removed / added before it starts; removal after the start is refused; addition is not
+        add("members", vec![w3.clone()], vec![
+            vec![attach(CREATOR, 0), at(T(500, 0)),
+                 COp::WlRemove { who: STRANGER.into(), slot: 0, stage: 1, members: names(&[M2]) },
+                 COp::WlRemove { who: CREATOR.into(), slot: 0, stage: 1, members: names(&[M2]) },
+                 COp::WlAdd { who: CREATOR.into(), slot: 0, stage: 1, members: names(&[STRANGER]) },
+                 COp::WlRemove { who: CREATOR.into(), slot: 0, stage: 0, members: names(&[M1, NM]) }, // NM is not there: nothing changes
+                 COp::WlAdd { who: CREATOR.into(), slot: 0, stage: 2, members: names(&[M1, M1]) },
+                 COp::WlAdd { who: STRANGER.into(), slot: 0, stage: 0, members: names(&[STRANGER]) },
+                 COp::WlAdd { who: CREATOR.into(), slot: 0, stage: 3, members: names(&[M2]) }],
+            at_round(T(1000, 0), 0, &[60]),
+            vec![COp::WlRemove { who: CREATOR.into(), slot: 0, stage: 0, members: names(&[M1]) }, COp::WlAdd { who: CREATOR.into(), slot: 0, stage: 0, members: names(&[NM]) }],
+            round(0, &[60]),
+            at_round(T(1600, 0), 1, &[70]), at_round(T(2100, 0), 2, &[80]),
+        ]);
+        // times and price of a stage changed
+        add("update-stage", vec![w3.clone()], vec![
+            vec![attach(CREATOR, 0), at(T(500, 0)),
+                 COp::WlUpdateStage { who: STRANGER.into(), slot: 0, stage: 1, start: None, end: Some(T(1800, 0)), price: Some(75) },
+                 COp::WlUpdateStage { who: CREATOR.into(), slot: 0, stage: 1, start: None, end: Some(T(1800, 0)), price: Some(75) },
+                 COp::WlUpdateStage { who: CREATOR.into(), slot: 0, stage: 2, start: Some(T(1700, 0)), end: None, price: None }, // would overlap: rejected
+                 COp::WlUpdateStage { who: CREATOR.into(), slot: 0, stage: 2, start: Some(T(1900, 5)), end: None, price: None }],
+            at_round(T(1600, 0), 1, &[75, 70]), at_round(T(1800, 0), 1, &[75]), at_round(T(1800, 1), 1, &[75]),
+            at_round(T(1900, 4), 2, &[80]), at_round(T(1900, 5), 2, &[80]), at_round(T(2100, 0), 2, &[80]),
+        ]);
+        if full {
+            // everything removed, three new stages with the lists rotated; a fourth is refused
+            add("remove-first-rebuild-all", vec![w3.clone()], vec![
+                vec![attach(CREATOR, 0), at(T(500, 0)), rm(CREATOR, 0, 0), rm(CREATOR, 0, 0)],
+                round(0, &[60]),
+                vec![ads(CREATOR, 0, st(T(1000, 0), T(1500, 0), 61, &[M2])), ads(CREATOR, 0, st(T(1600, 0), T(2000, 0), 72, &[NM])),
+                     ads(CREATOR, 0, st(T(2100, 0), T(2600, 0), 82, &[M1])), ads(CREATOR, 0, st(T(2700, 0), T(2800, 0), 83, &[STRANGER]))],
+                at_round(T(1000, 0), 0, &[61, 60]), at_round(T(1600, 0), 1, &[72]), at_round(T(2100, 0), 2, &[82, 80]), at_round(T(2700, 0), 2, &[83]),
+            ]);
+            // the last stage removed and re-added later with another list
+            add("remove-last-readd", vec![w3.clone()], vec![
+                vec![attach(CREATOR, 0), at(T(500, 0)), rm(CREATOR, 0, 2), ads(CREATOR, 0, st(T(2200, 0), T(2700, 0), 83, &[M1]))],
+                at_round(T(1600, 0), 1, &[70]), at_round(T(2100, 0), 2, &[80, 83]), at_round(T(2200, 0), 2, &[83, 80]), at_round(T(2700, 1), 2, &[83]),
+                vec![rm(CREATOR, 0, 2), rm(CREATOR, 0, 1)],
+            ]);
+            // surgery on a whitelist that is not attached yet, then it replaces the attached one
+            add("rebuild-then-attach", vec![mk(vec![st(T(1000, 0), T(1500, 0), 65, &[M1])]), w3.clone()], vec![
+                vec![attach(CREATOR, 0), at(T(400, 0)), rm(CREATOR, 1, 1),
+                     ads(CREATOR, 1, st(T(1600, 0), T(2000, 0), 71, &[STRANGER])), ads(CREATOR, 1, st(T(2100, 0), T(2600, 0), 81, &[M2])),
+                     attach(CREATOR, 1), COp::WlRemove { who: CREATOR.into(), slot: 1, stage: 0, members: names(&[M1]) }, COp::WlAdd { who: CREATOR.into(), slot: 0, stage: 0, members: names(&[NM]) }],
+                at_round(T(1000, 0), 0, &[60, 65]), at_round(T(1600, 0), 1, &[71]), at_round(T(2100, 0), 2, &[81, 80]),
+            ]);
+        }
+    } else if !kind.tiered() && !kind.merkle() {
+        let w1 = mk(vec![st(T(1000, 0), T(2000, 0), 60, &[M1, M2])]);
+        add("members", vec![w1.clone()], vec![
+            vec![attach(CREATOR, 0), at(T(500, 0)),
+                 COp::WlRemove { who: STRANGER.into(), slot: 0, stage: 0, members: names(&[M2]) },
+                 COp::WlRemove { who: CREATOR.into(), slot: 0, stage: 0, members: names(&[M2]) },
+                 COp::WlAdd { who: CREATOR.into(), slot: 0, stage: 0, members: names(&[STRANGER, STRANGER]) },
+                 COp::WlRemove { who: CREATOR.into(), slot: 0, stage: 0, members: names(&[M1, NM]) },
+                 COp::WlAdd { who: STRANGER.into(), slot: 0, stage: 0, members: names(&[NM]) }],
+            at_round(T(1000, -1), 0, &[60]), at_round(T(1000, 0), 0, &[60]),
+            vec![COp::WlRemove { who: CREATOR.into(), slot: 0, stage: 0, members: names(&[M1]) }, COp::WlAdd { who: CREATOR.into(), slot: 0, stage: 0, members: names(&[NM]) }],
+            round(0, &[60]), at_round(T(2000, 0), 0, &[60]),
+        ]);
+        add("update-times", vec![w1.clone()], vec![
+            vec![attach(CREATOR, 0), at(T(500, 0)),
+                 COp::WlUpdateStage { who: STRANGER.into(), slot: 0, stage: 0, start: Some(T(1200, 0)), end: None, price: None },
+                 COp::WlUpdateStage { who: CREATOR.into(), slot: 0, stage: 0, start: Some(T(1200, 0)), end: None, price: None }],
+            at_round(T(1000, 0), 0, &[60]), at_round(T(1200, -1), 0, &[60]), at_round(T(1200, 0), 0, &[60]),
+            vec![at(T(1300, 0)), COp::WlUpdateStage { who: CREATOR.into(), slot: 0, stage: 0, start: Some(T(1400, 0)), end: Some(T(2500, 0)), price: None },
+                 COp::WlUpdateStage { who: CREATOR.into(), slot: 0, stage: 0, start: None, end: Some(T(1500, 0)), price: None }],
+            at_round(T(1500, -1), 0, &[60]), at_round(T(1500, 0), 0, &[60]), at_round(T(2000, -1), 0, &[60]),
+        ]);
+        if full {
+            add("replace-after-member-change", vec![w1.clone(), mk(vec![st(T(1100, 0), T(1900, 0), 65, &[NM])])], vec![
+                vec![attach(CREATOR, 0), at(T(500, 0)), COp::WlAdd { who: CREATOR.into(), slot: 1, stage: 0, members: names(&[M1]) },
+                     COp::WlRemove { who: CREATOR.into(), slot: 1, stage: 0, members: names(&[NM]) }, attach(CREATOR, 1),
+                     COp::WlAdd { who: CREATOR.into(), slot: 0, stage: 0, members: names(&[STRANGER]) }],
+                at_round(T(1000, 0), 0, &[60, 65]), at_round(T(1100, 0), 0, &[65, 60]), at_round(T(1900, 0), 0, &[65]),
+            ]);
+        }
+    } else if kind == Kind::Merkle {
+        // the tree is fixed; the window can move
+        let w1 = mk(vec![st(T(1000, 0), T(2000, 0), 60, &[M1, M2])]);
+        add("update-times", vec![w1], vec![
+            vec![attach(CREATOR, 0), at(T(500, 0)),
+                 COp::WlUpdateStage { who: STRANGER.into(), slot: 0, stage: 0, start: Some(T(1200, 0)), end: None, price: None },
+                 COp::WlUpdateStage { who: CREATOR.into(), slot: 0, stage: 0, start: Some(T(1200, 0)), end: Some(T(1500, 0)), price: None }],
+            at_round(T(1000, 0), 0, &[60]), at_round(T(1200, -1), 0, &[60]), at_round(T(1200, 0), 0, &[60]),
+            at_round(T(1500, -1), 0, &[60]), at_round(T(1500, 0), 0, &[60]),
+        ]);
+    } else {
+        // tiered Merkle: trees fixed per stage; times and prices can change
+        let w2 = mk(vec![st(T(1000, 0), T(1500, 0), 60, &[M1]), st(T(1600, 0), T(2000, 0), 70, &[M2, NM])]);
+        add("update-stage", vec![w2], vec![
+            vec![attach(CREATOR, 0), at(T(500, 0)),
+                 COp::WlUpdateStage { who: STRANGER.into(), slot: 0, stage: 1, start: None, end: Some(T(1800, 0)), price: Some(75) },
+                 COp::WlUpdateStage { who: CREATOR.into(), slot: 0, stage: 1, start: Some(T(1550, 0)), end: Some(T(1800, 0)), price: Some(75) },
+                 COp::WlUpdateStage { who: CREATOR.into(), slot: 0, stage: 0, start: None, end: Some(T(1560, 0)), price: None }],
+            at_round(T(1000, 0), 0, &[60]), at_round(T(1550, -1), 1, &[75]), at_round(T(1550, 0), 1, &[75, 70]),
+            at_round(T(1800, 0), 1, &[75]), at_round(T(1800, 1), 1, &[75]),
+        ]);
+    }
+    v
+}
+
+/// a random whitelist admin operation on one of the two whitelists of a random history
+fn random_wl_op(rng: &mut Rng) -> COp {
+    let who: String = (if rng.chance(5, 6) { CREATOR } else { STRANGER }).into();
+    let slot = rng.below(2) as usize;
+    let stage = rng.below(3) as u32;
+    let people = [M1, M2, NM, STRANGER];
+    let mut members: Vec<String> = vec![(*rng.pick(&people)).to_string()];
+    if rng.chance(1, 3) {
+        members.push((*rng.pick(&people)).to_string());
+    }
+    match rng.below(5) {
+        0 => COp::WlAdd { who, slot, stage, members },
+        1 => COp::WlRemove { who, slot, stage, members },
+        2 => {
+            let (a, b) = *rng.pick(&[(1510u64, 1590u64), (2650, 2750), (3700, 3800), (4100, 4200)]);
+            COp::WlAddStage { who, slot, stage: StageSpec { start: T(a, 0), end: T(b, 0), price: 77, members, stage_limit: None } }
+        }
+        3 => COp::WlRemoveStage { who, slot, stage },
+        _ => COp::WlUpdateStage { who, slot, stage, start: None, end: Some(T(*rng.pick(&[1400u64, 1800, 2400, 3400]), rng.below(2) as i64)), price: if rng.chance(1, 2) { Some(*rng.pick(&[62u128, 77])) } else { None } },
+    }
+}
+
 /// structured random histories: the clock jumps between boundary instants (+-1ns) of the
 /// case's own schedule; mints, schedule updates and whitelist changes in any order
 fn random_case(rng: &mut Rng, fam: Fam, n: usize, lits: &[u128]) -> Case {
@@ -1666,6 +2004,15 @@ fn random_case(rng: &mut Rng, fam: Fam, n: usize, lits: &[u128]) -> Case {
     if rng.chance(3, 4) {
         ops.push(attach(CREATOR, 0));
     }
+    // whitelist administration while nothing has started yet (most of it is refused later on)
+    if rng.chance(2, 3) {
+        for _ in 0..rng.range(1, 4) {
+            ops.push(random_wl_op(rng));
+        }
+        if rng.chance(1, 2) {
+            ops.push(attach(CREATOR, rng.below(2) as usize));
+        }
+    }
     let mut now = T(0, 0);
     let buyers = [M1, M2, NM, STRANGER, CREATOR];
     for _ in 0..n {
@@ -1692,7 +2039,7 @@ fn random_case(rng: &mut Rng, fam: Fam, n: usize, lits: &[u128]) -> Case {
             }
             22..=57 => {
                 let who = *rng.pick(&buyers);
-                let prices: Vec<u128> = spec.stages.iter().map(|s| s.price).chain([PUB, 65, PUB - 1, PUB - 10, PUB - 20, 70]).collect();
+                let prices: Vec<u128> = spec.stages.iter().map(|s| s.price).chain([PUB, 65, PUB - 1, PUB - 10, PUB - 20, 70, 77, 62]).collect();
                 // now and then an amount next to a literal of the contract source
                 let p = if !lits.is_empty() && rng.chance(1, 12) { *rng.pick(lits) } else { *rng.pick(&prices) };
                 if fam.merkle() && rng.chance(2, 3) {
@@ -1722,7 +2069,8 @@ fn random_case(rng: &mut Rng, fam: Fam, n: usize, lits: &[u128]) -> Case {
                 ops.push(attach(who, rng.below(2) as usize));
             }
             89..=92 => ops.push(COp::WlAddMember { who: (*rng.pick(&[NM, STRANGER])).into() }),
-            93..=96 => ops.push(drop_to(fam, *rng.pick(&[CREATOR, CREATOR, STRANGER]))),
+            93..=94 => ops.push(drop_to(fam, *rng.pick(&[CREATOR, CREATOR, STRANGER]))),
+            95..=96 => ops.push(random_wl_op(rng)),
             _ => {
                 if fam.oe {
                     ops.push(drop_to(fam, CREATOR));
@@ -1781,7 +2129,7 @@ fn corpus(thorough: bool, rng: &mut Rng) -> Vec<Case> {
                     // quick tier: every (variant, kind, shape) keeps the start and end boundaries;
                     // the other boundaries are sampled
                     for c in cs {
-                        let keep = c.label.ends_with(&format!("{:?}", T(START, 0))) || c.label.ends_with(&format!("{:?}", T(END, 0))) || rng.chance(1, 5);
+                        let keep = (c.label.ends_with(&format!("{:?}", T(START, 0))) && (sh == (fi + ki) % nshapes || rng.chance(1, 3))) || (c.label.ends_with(&format!("{:?}", T(END, 0))) && (sh % 2 == ki % 2 || kind.tiered())) || rng.chance(1, 6);
                         if keep {
                             v.push(c);
                         }
@@ -1789,11 +2137,15 @@ fn corpus(thorough: bool, rng: &mut Rng) -> Vec<Case> {
                 }
             }
             v.extend(overlap_cases(fam, *kind));
+            // a Merkle vending minter cannot serve the members of a list tiered whitelist at all (see the observation)
+            if !(fam.merkle() && kind.tiered() && !kind.merkle()) {
+                v.extend(wl_admin_cases(fam, *kind, thorough || ki == fi % kinds.len()));
+            }
             if thorough {
                 v.extend(set_whitelist_cases(fam, *kind));
             } else if ki == fi % kinds.len() {
                 // quick tier: the +1ns neighbours of the old / new whitelist's edges are left to the thorough tier
-                v.extend(set_whitelist_cases(fam, *kind).into_iter().filter(|c| !(c.label.ends_with("+1ns") && !c.label.contains(":start"))));
+                v.extend(set_whitelist_cases(fam, *kind).into_iter().filter(|c| !((c.label.ends_with("+1ns") || c.label.ends_with("-1ns")) && !c.label.contains(":start"))));
             } else {
                 // the start boundary of SetWhitelist for every pairing even in the quick tier
                 v.extend(set_whitelist_cases(fam, *kind).into_iter().filter(|c| c.label.contains(":start")));
@@ -1888,7 +2240,7 @@ pub fn run(a: &Args) {
         let mut seen = BTreeSet::new();
         // what a buyer was actually charged / allowed comes before what the minter merely announced
         let mut ordered: Vec<&(String, String, usize)> = r.violations.iter().collect();
-        ordered.sort_by_key(|v| (v.0.starts_with("C04:announced-price"), v.2));
+        ordered.sort_by_key(|v| (v.0.starts_with("C04:announced-price") || v.0 == "C04:whitelist-membership-vs-lists" || v.0.starts_with("C04:whitelist-activity") || v.0 == "C04:whitelist-price-vs-stage", v.2));
         for (key, what, oi) in ordered.into_iter() {
             if !seen.insert(key.clone()) {
                 continue;
